@@ -146,7 +146,8 @@ theorem rep_succ (E : Env) (bad : List PyTy) : ∀ (n : Nat) (ty : PyTy) (v : Py
       simp only [Bool.or_eq_true, List.any_eq_true] at h2 ⊢
       rcases h2 with ⟨t, ht, hh⟩ | hh
       · exact Or.inl ⟨t, ht, ih _ _ _ hh⟩
-      · exact Or.inr (rawEnum_mono ih ts v j hh)
+      · simp only [Bool.and_eq_true] at hh ⊢
+        exact Or.inr ⟨hh.1, rawEnum_mono ih ts v j hh.2⟩
     | _ => exact h2
 
 theorem rep_mono (E : Env) (bad : List PyTy) {n m : Nat} (hnm : n ≤ m) {ty : PyTy} {v : PyVal} {j : Json}
